@@ -145,7 +145,10 @@ def step (cfg : Cfg) (s : St) : Act → St
       | .empty => { s with flushHeld := false, npc := .idle }
       | _ => { r.1 with flushHeld := false, npc := .idle, up := r.1.up ++ [.raised] }      -- the exception reaches the network thread
   | .disconnect =>
-    if s.npc != .idle then s
+    -- between network reads (npc idle), or re-entrantly from inside the handling of a frame the network thread is flushing
+    -- (the auth layer closes the connection for a <failure/> or a stream error): the flush loop then goes on with the
+    -- layer's NEW queue and protocol object
+    if s.npc != .idle && s.npc != .inFlush then s
     else
       let s0 := { s with live := false }
       let s1 := if cfg.freshProtocol then { s0 with curP := s0.protos.length, protos := s0.protos ++ [{}] }
@@ -203,7 +206,7 @@ def atRest (s : St) : Bool :=
     handshake reply first and once, then frames, in the order of their serial numbers -/
 def Allowed (s : St) : Act → Bool
   | .connect => s.npc == .idle && !s.live
-  | .disconnect => s.npc == .idle && s.live
+  | .disconnect => (s.npc == .idle || s.npc == .inFlush) && s.live
   | .arrive sg =>
     s.npc == .idle && s.live && sg.conn == s.conn && decide (s.lastSerial < sg.serial) &&
     (match sg.kind with
